@@ -19,6 +19,7 @@
 -/
 import NutsProofs.Props.C14
 import NutsProofs.Props.C15
+import NutsProofs.Pins.Locks
 namespace NutsProofs.C17
 open Nuts.Model.Conc
 
